@@ -144,7 +144,7 @@ Lemma enc_kid_is_group ks kv : In kv (enc_kids ks) -> is_group (snd kv) = true.
 Proof. unfold enc_kids. intros H. apply in_map_iff in H. destruct H as (k & <- & _). cbn. rewrite enc_eq. reflexivity. Qed.
 
 Lemma payload_pl n : rcls n = CPl ->
-  filter (fun kv => negb (is_group (snd kv))) (ksort (olinks (enc n))) = [("x", D [("dtype", AStr "int64")] [2] (rtok n))].
+  filter (fun kv => negb (is_group (snd kv))) (ksort (olinks (enc n))) = [("x", D [("dtype", AStr "int64")] [if Z.eqb (rtok n) 0 then 0 else 2] (rtok n))].
 Proof.
   intros Hc. apply Permutation_length_1_inv. apply Permutation_sym.
   eapply Permutation_trans; [apply filter_perm; apply ksort_perm|].
